@@ -113,6 +113,13 @@ func runImpl(t vkit.TB, order []string, grace time.Duration, conns map[int]*ccon
 		}
 		l = sub.(*nodenet.MultiplexingListener)
 	}
+	// every third run starts with a request the listener refuses (a nil source
+	// listener): a refused call must leave nothing behind
+	if refusedCalls.Add(1)%3 == 0 {
+		if err := l.IngressListener(nil); err == nil {
+			return "ingress-listener-accepted-nil", map[string]any{"start_order": order}, 0
+		}
+	}
 	led := &ledger{returned: map[int]int{}}
 	var closeDone atomic.Int64
 	var wg sync.WaitGroup
@@ -342,6 +349,8 @@ func perms(items []string) [][]string {
 var listenerSources atomic.Int64
 
 var parentKinds atomic.Int64
+
+var refusedCalls atomic.Int64
 
 // deadlineCtx is a parent context that ends the way context.WithDeadline's does
 // (Err() == context.DeadlineExceeded), at the moment the harness chooses.
